@@ -81,6 +81,17 @@ def run(tier):
                 gp.marginal_likelihood(other)
                 gp.loo_likelihood(other)
                 gp.marginal_likelihood_gradient(other)
+            # ... and other hyper-parameters SET and used in between (compared with a regressor without history), then restored
+            gp.set_hyperparameters(other)
+            dm_o, dv_o = gp.spatial_derivatives(q)
+            gm_o, gc_o = gp.gradient(q)
+            fresh, _, _ = GE.regressor(pb)
+            fresh.set_hyperparameters(other.copy())
+            dm_f, dv_f = fresh.spatial_derivatives(q)
+            gm_f, gc_f = fresh.gradient(q)
+            gp.set_hyperparameters(hp)
+            path_ok = all(np.allclose(np.asarray(a_, dtype=float), np.asarray(b_, dtype=float), rtol=1e-10, atol=1e-12)
+                          for a_, b_ in ((dm_o, dm_f), (dv_o, dv_f), (gm_o, gm_f), (gc_o, gc_f)))
             gm_c, gc_c = gp.gradient(q)
             dm_c, dv_c = gp.spatial_derivatives(q)
             qi = Q.astype(int) if d > 1 else Q[:, 0].astype(int)
@@ -89,15 +100,33 @@ def run(tier):
             dm_l, dv_l = gp.spatial_derivatives(qi.tolist())
             ck.case(str(idn) + "again")
             same = lambda a, b: np.asarray(a, dtype=float).shape == np.asarray(b, dtype=float).shape and np.allclose(np.asarray(a, dtype=float), np.asarray(b, dtype=float), rtol=1e-12, atol=1e-12 * scale)
-            if not (same(gm_c, gm_b) and same(gc_c, gc_b) and same(dm_c, dm_b) and same(dv_c, dv_b)):
+            if not (path_ok and same(gm_c, gm_b) and same(gc_c, gc_b) and same(dm_c, dm_b) and same(dv_c, dv_b)):
                 ck.violation("derivative predictions of the fitted model do not depend on scores evaluated at other hyper-parameters in between",
-                             {**idn, "gradient_mean_before": gm_b, "gradient_mean_after": gm_c}, site="GpRegressor.gradient:stale-state")
+                             {**idn, "gradient_mean_before": gm_b, "gradient_mean_after": gm_c, "variance_derivative_at_other_hyperpars": dv_o,
+                              "same_from_a_regressor_without_history": dv_f}, site="GpRegressor.gradient:stale-state")
             if not (same(gm_i, gm_b) and same(gc_i, gc_b) and same(dm_i, dm_b) and same(dv_i, dv_b) and same(dm_l, dm_b) and same(dv_l, dv_b)):
                 ck.violation("integer-typed query points give the derivative predictions of the equal float points",
                              {**idn, "float_points": dm_b, "integer_points": dm_i, "variance_derivative_float": dv_b, "variance_derivative_integer": dv_i},
                              site="GpRegressor.spatial_derivatives:dtype")
         except Exception as ex:
             ck.violation("derivative prediction raised (repeated / integer-typed query)", {**idn, "error": repr(ex)[:300]}, site="GpRegressor.gradient")
+        # the whole problem translated by ~2^40 (squared-exponential prior: the derivative predictions do not change)
+        Xa = np.array(pb["X"], dtype=float)
+        if np.all((Xa.sum(axis=0) * 4096.0 / len(Xa)) == np.round(Xa.sum(axis=0) * 4096.0 / len(Xa))):
+            try:
+                S_ = 2.0 ** 40 + 1234567 * 2.0 ** -12
+                gps, _, _ = GE.regressor(pb, xshift=S_)
+                qs = (Q + S_) if d > 1 else (Q + S_)[:, 0]
+                gm_s, gc_s = gps.gradient(qs)
+                dm_s, dv_s = gps.spatial_derivatives(qs)
+                ck.case(str(idn) + "shift")
+                if not (GE.close(np.asarray(gm_s, dtype=float).reshape(nq, d), want_gm, scale) and GE.close(np.asarray(dv_s, dtype=float).reshape(nq, d), want_gv, scale)
+                        and GE.close(np.asarray(gc_s, dtype=float).reshape(nq, d, d), want_gc, scale)):
+                    ck.violation("derivative predictions of the problem translated far from the origin equal those of the original problem",
+                                 {**idn, "translated_by": S_, "want_mean": want_gm, "got_mean": np.asarray(gm_s, dtype=float).reshape(nq, d)},
+                                 site="GpRegressor.gradient:far")
+            except Exception as ex:
+                ck.violation("derivative prediction raised (translated problem)", {**idn, "error": repr(ex)[:300]}, site="GpRegressor.gradient")
         if len(ck.samples) < 3 and d == 2 and pb["mean"]["k"] != "const":
             ck.sample({**idn, "queries": c["Q"], "spec_gradient_mean": want_gm.tolist(), "spec_gradient_cov_q1": want_gc[0].tolist()})
     ck.traces += len(probs)
